@@ -1,3 +1,7 @@
+/-
+  Helper lemmas for property C04 (the lexer against the lexical grammar of `Jmes/Spec/Lexical.lean`):
+  `lexDecode`, `skipWsLex`, `spanRunes`, `scanDelim`, and the case analysis of `lexToken` (`lexToken_good`).
+-/
 import Jmes.Spec.Lexical
 import Jmes.Proofs.Literals
 namespace Jmes.Lex
@@ -220,5 +224,995 @@ theorem scanDelim_sound {d : Nat} (hd : d < 0x80) :
               rw [hsz, List.take_length_add_append]
             rw [e2]
             exact DelimBody.plain r _ hs hr hbs hk3
+
+
+/-! ### one step of the lexer -/
+
+/-- everything the specification says about one step of the lexer -/
+structure Good (s : Bytes) (t : Token) (n : Nat) : Prop where
+  pos : 0 < n
+  le : n ≤ s.length
+  val : t.value = s.take n
+  shape : TokShape t.type t.value
+  maxi : ∀ b, (s.drop n).head? = some b → forbiddenNext t b = false
+  wild : t.type = .openSqBrace → (s.drop n).take 2 ≠ [0x2A, 0x5D]
+
+theorem peek_of_head {s : Bytes} {sz b : Nat} (hb : (s.drop sz).head? = some b) (hlt : b < 0x80) :
+    peek s sz = some (b, 1) := by
+  unfold peek
+  match hs : s.drop sz, hb with
+  | c :: t, hb =>
+    simp at hb; subst hb
+    rw [lexDecode_cons_ascii hlt]
+
+theorem take_two {s : Bytes} {r sz nr nsz : Nat} (h1 : lexDecode s = .ok (r, sz))
+    (h2 : lexDecode (s.drop sz) = .ok (nr, nsz)) :
+    s.take (sz + nsz) = encodeRune r ++ encodeRune nr ∧ sz + nsz ≤ s.length := by
+  rw [List.take_add, lexDecode_take h1, lexDecode_take h2]
+  have := (lexDecode_pos h2).2
+  have := (lexDecode_pos h1).2
+  simp at *; omega
+
+/-- a one-rune token -/
+theorem good_single {s : Bytes} {r sz : Nat} (hdec : lexDecode s = .ok (r, sz)) (ty : TokenType)
+    (hshape : TokShape ty (encodeRune r))
+    (hasc : ∀ b, forbiddenNext ⟨ty, encodeRune r⟩ b = true → b < 0x80)
+    (hmax : ∀ b, peek s sz = some (b, 1) → forbiddenNext ⟨ty, encodeRune r⟩ b = false)
+    (hw : ty = .openSqBrace → (s.drop sz).take 2 ≠ [0x2A, 0x5D]) :
+    Good s ⟨ty, s.take sz⟩ sz := by
+  have hp := lexDecode_pos hdec
+  refine ⟨hp.1, hp.2, rfl, ?_, ?_, hw⟩
+  · show TokShape ty (s.take sz); rw [lexDecode_take hdec]; exact hshape
+  · intro b hb
+    rw [lexDecode_take hdec]
+    cases hf : forbiddenNext ⟨ty, encodeRune r⟩ b with
+    | false => rfl
+    | true =>
+      have := hmax b (peek_of_head hb (hasc b hf))
+      rw [this] at hf; cases hf
+
+/-- a two-rune token -/
+theorem good_double {s : Bytes} {r sz nr nsz : Nat} (hdec : lexDecode s = .ok (r, sz))
+    (hpk : peek s sz = some (nr, nsz)) (ty : TokenType)
+    (hshape : TokShape ty (encodeRune r ++ encodeRune nr))
+    (hmax : ∀ v b, forbiddenNext ⟨ty, v⟩ b = false) (hw : ty ≠ .openSqBrace) :
+    Good s ⟨ty, s.take (sz + nsz)⟩ (sz + nsz) := by
+  have hp := lexDecode_pos hdec
+  have h2 := take_two hdec (peek_some hpk)
+  refine ⟨by omega, h2.2, rfl, ?_, fun b _ => hmax _ b, fun h => absurd h hw⟩
+  show TokShape ty (s.take (sz + nsz)); rw [h2.1]; exact hshape
+
+/-- a delimited token -/
+theorem good_delim {s : Bytes} {d sz n : Nat} (hd : d < 0x80) (hdec : lexDecode s = .ok (d, sz)) (ty : TokenType)
+    (hsc : scanDelim d (s.length + 1) (s.drop sz) sz = .ok n)
+    (hshape : ∀ v, Delimited d v → TokShape ty v)
+    (hmax : ∀ v b, forbiddenNext ⟨ty, v⟩ b = false) (hw : ty ≠ .openSqBrace) :
+    Good s ⟨ty, s.take n⟩ n := by
+  have hp := lexDecode_pos hdec
+  obtain ⟨k, hk1, hk2, hk3⟩ := scanDelim_sound hd _ _ _ _ hsc
+  subst hk1
+  rw [List.length_drop] at hk2
+  refine ⟨by omega, by omega, rfl, ?_, fun b _ => hmax _ b, fun h => absurd h hw⟩
+  apply hshape
+  show Delimited d (s.take (sz + k))
+  rw [List.take_add, lexDecode_take hdec, encodeRune_ascii d hd]
+  exact ⟨_, rfl, hk3⟩
+
+/-- a known prefix of `pre` bytes followed by the maximal run of `p`-bytes -/
+theorem span_good {s : Bytes} (pre : Nat) (p : Nat → Bool) (hp : ∀ r, p r = true → r < 0x80) (hpre : pre ≤ s.length) :
+    pre + spanRunes p s.length (s.drop pre) ≤ s.length ∧
+    s.take (pre + spanRunes p s.length (s.drop pre)) = s.take pre ++ (s.drop pre).take (spanRunes p s.length (s.drop pre)) ∧
+    (∀ b ∈ (s.drop pre).take (spanRunes p s.length (s.drop pre)), p b = true) ∧
+    ∀ b, (s.drop (pre + spanRunes p s.length (s.drop pre))).head? = some b → p b = false := by
+  have h1 := spanRunes_spec p hp s.length (s.drop pre)
+  have h2 := spanRunes_max p hp s.length (s.drop pre) (by simp)
+  rw [List.length_drop] at h1
+  refine ⟨by omega, List.take_add, h1.2, ?_⟩
+  intro b hb
+  rw [← List.drop_drop] at hb
+  exact h2 b hb
+
+theorem digits_cons {c : Nat} {t : Bytes} (hc : isDigitB c = true) (ht : ∀ b ∈ t, isDigitB b = true) :
+    Digits (c :: t) := by
+  refine ⟨by simp, ?_⟩
+  intro b hb; simp at hb; rcases hb with rfl | hb
+  · exact hc
+  · exact ht b hb
+
+/-- an integer literal that starts with a digit -/
+theorem good_digits {s : Bytes} {r sz : Nat} (hdec : lexDecode s = .ok (r, sz)) (hr : isDigitR r = true) :
+    Good s ⟨.integerLiteral, s.take (sz + spanRunes isDigitR s.length (s.drop sz))⟩
+      (sz + spanRunes isDigitR s.length (s.drop sz)) := by
+  have hp := lexDecode_pos hdec
+  obtain ⟨a1, a2, a3, a4⟩ := span_good (s := s) sz isDigitR (fun r h => isDigitB_lt h) hp.2
+  refine ⟨by omega, a1, rfl, ?_, a4, fun h => by cases h⟩
+  show TokShape .integerLiteral (s.take _)
+  rw [a2, lexDecode_take hdec, encodeRune_ascii r (isDigitB_lt hr)]
+  exact Or.inl (digits_cons hr a3)
+
+/-- `-` and digits -/
+theorem good_negdigits {s : Bytes} {sz nr nsz : Nat} (hdec : lexDecode s = .ok (0x2D, sz))
+    (hpk : peek s sz = some (nr, nsz)) (hr : isDigitR nr = true) :
+    Good s ⟨.integerLiteral, s.take (sz + nsz + spanRunes isDigitR s.length (s.drop (sz + nsz)))⟩
+      (sz + nsz + spanRunes isDigitR s.length (s.drop (sz + nsz))) := by
+  have hp := lexDecode_pos hdec
+  have h2 := take_two hdec (peek_some hpk)
+  obtain ⟨a1, a2, a3, a4⟩ := span_good (s := s) (sz + nsz) isDigitR (fun r h => isDigitB_lt h) h2.2
+  refine ⟨by omega, a1, rfl, ?_, a4, fun h => by cases h⟩
+  show TokShape .integerLiteral (s.take _)
+  rw [a2, h2.1, encodeRune_ascii nr (isDigitB_lt hr)]
+  exact Or.inr ⟨_, rfl, digits_cons hr a3⟩
+
+theorem ident_cons {c : Nat} {t : Bytes} (hc : isIdStartB c = true) (ht : ∀ b ∈ t, isIdCharB b = true) :
+    Ident (c :: t) := ⟨c, t, rfl, hc, ht⟩
+
+/-- `$name` -/
+theorem good_variable {s : Bytes} {sz nr nsz : Nat} (hdec : lexDecode s = .ok (0x24, sz))
+    (hpk : peek s sz = some (nr, nsz)) (hr : isAlphaR nr = true) :
+    Good s ⟨.variable, s.take (sz + nsz + spanRunes (fun r => isAlphaR r || isDigitR r) s.length (s.drop (sz + nsz)))⟩
+      (sz + nsz + spanRunes (fun r => isAlphaR r || isDigitR r) s.length (s.drop (sz + nsz))) := by
+  have hp := lexDecode_pos hdec
+  have h2 := take_two hdec (peek_some hpk)
+  obtain ⟨a1, a2, a3, a4⟩ := span_good (s := s) (sz + nsz) (fun r => isAlphaR r || isDigitR r)
+    (fun r h => isIdCharB_lt h) h2.2
+  refine ⟨by omega, a1, rfl, ?_, a4, fun h => by cases h⟩
+  show TokShape .variable (s.take _)
+  rw [a2, h2.1, encodeRune_ascii nr (isIdStartB_lt hr)]
+  exact ⟨_, rfl, ident_cons hr a3⟩
+
+/-- identifiers and the two keywords -/
+theorem good_ident {s : Bytes} {r sz : Nat} (hdec : lexDecode s = .ok (r, sz)) (hr : isAlphaR r = true) :
+    Good s ⟨if s.take (sz + spanRunes (fun r => isAlphaR r || isDigitR r) s.length (s.drop sz)) = [0x69, 0x6E]
+              then TokenType.in
+            else if s.take (sz + spanRunes (fun r => isAlphaR r || isDigitR r) s.length (s.drop sz)) = [0x6C, 0x65, 0x74]
+              then TokenType.let else TokenType.unquotedIdentifier,
+            s.take (sz + spanRunes (fun r => isAlphaR r || isDigitR r) s.length (s.drop sz))⟩
+      (sz + spanRunes (fun r => isAlphaR r || isDigitR r) s.length (s.drop sz)) := by
+  have hp := lexDecode_pos hdec
+  obtain ⟨a1, a2, a3, a4⟩ := span_good (s := s) sz (fun r => isAlphaR r || isDigitR r)
+    (fun r h => isIdCharB_lt h) hp.2
+  have hid : Ident (s.take (sz + spanRunes (fun r => isAlphaR r || isDigitR r) s.length (s.drop sz))) := by
+    rw [a2, lexDecode_take hdec, encodeRune_ascii r (isIdStartB_lt hr)]
+    exact ident_cons hr a3
+  generalize hv : s.take (sz + spanRunes (fun r => isAlphaR r || isDigitR r) s.length (s.drop sz)) = v at *
+  by_cases h1 : v = [0x69, 0x6E]
+  · rw [if_pos h1]
+    exact ⟨by omega, a1, hv.symm, h1, a4, fun h => by cases h⟩
+  · rw [if_neg h1]
+    by_cases h2 : v = [0x6C, 0x65, 0x74]
+    · rw [if_pos h2]
+      exact ⟨by omega, a1, hv.symm, h2, a4, fun h => by cases h⟩
+    · rw [if_neg h2]
+      exact ⟨by omega, a1, hv.symm, ⟨hid, h2, h1⟩, a4, fun h => by cases h⟩
+
+
+theorem wild_of {s : Bytes} {sz : Nat} (h : (s.drop sz).take 2 = [0x2A, 0x5D]) :
+    peek s sz = some (0x2A, 1) ∧ peek s (sz + 1) = some (0x5D, 1) := by
+  match hs : s.drop sz, h with
+  | a :: b :: t, h =>
+    simp at h
+    obtain ⟨rfl, rfl⟩ := h
+    refine ⟨peek_of_head (by rw [hs]; rfl) (by omega), peek_of_head ?_ (by omega)⟩
+    rw [← List.drop_drop, hs]; rfl
+
+/-- `[*]` -/
+theorem good_triple {s : Bytes} {sz nsz nnsz : Nat} (hdec : lexDecode s = .ok (0x5B, sz))
+    (hpk : peek s sz = some (0x2A, nsz)) (hpk2 : peek s (sz + nsz) = some (0x5D, nnsz)) :
+    Good s ⟨.arrayWildcard, s.take (sz + nsz + nnsz)⟩ (sz + nsz + nnsz) := by
+  have hp := lexDecode_pos hdec
+  have h2 := take_two hdec (peek_some hpk)
+  have h3 := peek_some hpk2
+  have hp3 := lexDecode_pos h3
+  rw [List.length_drop] at hp3
+  refine ⟨by omega, by omega, rfl, ?_, fun b _ => rfl, fun h => by cases h⟩
+  show s.take (sz + nsz + nnsz) = _
+  rw [List.take_add, h2.1, lexDecode_take h3]
+  rfl
+
+macro "fb_asc" : tactic => `(tactic|
+  (intro b h; simp [forbiddenNext, encodeRune, isDigitB, isIdStartB] at h <;> omega))
+
+/-- the one-rune branches without look-ahead -/
+macro "lex_one" hdec:ident h:ident : tactic => `(tactic| (
+  cases $h:ident
+  exact good_single $hdec _ (by first | rfl | exact Or.inl rfl | exact Or.inr rfl) (fun _ h => by cases h)
+    (fun _ _ => rfl) (fun h => by cases h)))
+
+/-- **The lexer step is sound, longest-match included.** -/
+theorem lexToken_good {s : Bytes} {t : Token} {n : Nat} (h : lexToken s = .ok (t, n)) : Good s t n := by
+  unfold lexToken at h
+  split at h
+  · cases h
+  rename_i r sz hdec
+  simp only [] at h
+  by_cases hr : r = 0x22
+  · rw [if_pos hr] at h  -- "
+    subst hr
+    split at h
+    · rename_i m hsc; cases h
+      exact good_delim (by omega) hdec _ hsc (fun v hv => hv) (fun _ _ => rfl) (by decide)
+    · cases h
+  rw [if_neg hr] at h
+  by_cases hr : r = 0x24
+  · rw [if_pos hr] at h  -- $
+    subst hr
+    split at h
+    · rename_i nr nsz hpk
+      split at h
+      · rename_i hnr; cases h; exact good_variable hdec hpk hnr
+      · rename_i hnr; cases h
+        refine good_single hdec _ (by rfl) (by fb_asc) ?_ (fun h => by cases h)
+        intro b hb; rw [hpk] at hb; cases hb
+        simpa [forbiddenNext, ← isAlphaR_eq] using hnr
+    · rename_i hpk; cases h
+      refine good_single hdec _ (by rfl) (by fb_asc) ?_ (fun h => by cases h)
+      intro b hb; rw [hpk] at hb; cases hb
+  rw [if_neg hr] at h
+  by_cases hr : r = 0x25
+  · rw [if_pos hr] at h
+    subst hr; lex_one hdec h      -- %
+  rw [if_neg hr] at h
+  by_cases hr : r = 0x26
+  · rw [if_pos hr] at h
+    -- & &&
+    subst hr
+    split at h
+    · rename_i nr nsz hpk
+      split at h
+      · rename_i hnr; subst hnr; cases h
+        exact good_double hdec hpk _ (by rfl) (fun _ _ => rfl) (by decide)
+      · rename_i hnr; cases h
+        refine good_single hdec _ (by first | rfl | exact Or.inl rfl) (by fb_asc) ?_ (fun h => by cases h)
+        intro b hb; rw [hpk] at hb; cases hb
+        simp [forbiddenNext, hnr]
+    · rename_i hpk; cases h
+      refine good_single hdec _ (by first | rfl | exact Or.inl rfl) (by fb_asc) ?_ (fun h => by cases h)
+      intro b hb; rw [hpk] at hb; cases hb
+  rw [if_neg hr] at h
+  by_cases hr : r = 0x27
+  · rw [if_pos hr] at h  -- '
+    subst hr
+    split at h
+    · rename_i m hsc; cases h
+      exact good_delim (by omega) hdec _ hsc (fun v hv => hv) (fun _ _ => rfl) (by decide)
+    · cases h
+  rw [if_neg hr] at h
+  by_cases hr : r = 0x28
+  · rw [if_pos hr] at h
+    subst hr; lex_one hdec h      -- (
+  rw [if_neg hr] at h
+  by_cases hr : r = 0x29
+  · rw [if_pos hr] at h
+    subst hr; lex_one hdec h      -- )
+  rw [if_neg hr] at h
+  by_cases hr : r = 0x2A
+  · rw [if_pos hr] at h
+    subst hr; lex_one hdec h      -- *
+  rw [if_neg hr] at h
+  by_cases hr : r = 0x2B
+  · rw [if_pos hr] at h
+    subst hr; lex_one hdec h      -- +
+  rw [if_neg hr] at h
+  by_cases hr : r = 0x2C
+  · rw [if_pos hr] at h
+    subst hr; lex_one hdec h      -- ,
+  rw [if_neg hr] at h
+  by_cases hr : r = 0x2D
+  · rw [if_pos hr] at h  -- - and negative integers
+    subst hr
+    split at h
+    · rename_i nr nsz hpk
+      split at h
+      · rename_i hnr; cases h; exact good_negdigits hdec hpk hnr
+      · rename_i hnr; cases h
+        refine good_single hdec _ (Or.inl rfl) (by fb_asc) ?_ (fun h => by cases h)
+        intro b hb; rw [hpk] at hb; cases hb
+        simpa [forbiddenNext, encodeRune, ← isDigitR_eq] using hnr
+    · rename_i hpk; cases h
+      refine good_single hdec _ (Or.inl rfl) (by fb_asc) ?_ (fun h => by cases h)
+      intro b hb; rw [hpk] at hb; cases hb
+  rw [if_neg hr] at h
+  by_cases hr : r = 0x2E
+  · rw [if_pos hr] at h
+    -- . .*
+    subst hr
+    split at h
+    · rename_i nr nsz hpk
+      split at h
+      · rename_i hnr; subst hnr; cases h
+        exact good_double hdec hpk _ (by rfl) (fun _ _ => rfl) (by decide)
+      · rename_i hnr; cases h
+        refine good_single hdec _ (by first | rfl | exact Or.inl rfl) (by fb_asc) ?_ (fun h => by cases h)
+        intro b hb; rw [hpk] at hb; cases hb
+        simp [forbiddenNext, hnr]
+    · rename_i hpk; cases h
+      refine good_single hdec _ (by first | rfl | exact Or.inl rfl) (by fb_asc) ?_ (fun h => by cases h)
+      intro b hb; rw [hpk] at hb; cases hb
+  rw [if_neg hr] at h
+  by_cases hr : r = 0x2F
+  · rw [if_pos hr] at h
+    -- / //
+    subst hr
+    split at h
+    · rename_i nr nsz hpk
+      split at h
+      · rename_i hnr; subst hnr; cases h
+        exact good_double hdec hpk _ (by rfl) (fun _ _ => rfl) (by decide)
+      · rename_i hnr; cases h
+        refine good_single hdec _ (by first | rfl | exact Or.inl rfl) (by fb_asc) ?_ (fun h => by cases h)
+        intro b hb; rw [hpk] at hb; cases hb
+        simp [forbiddenNext, hnr]
+    · rename_i hpk; cases h
+      refine good_single hdec _ (by first | rfl | exact Or.inl rfl) (by fb_asc) ?_ (fun h => by cases h)
+      intro b hb; rw [hpk] at hb; cases hb
+  rw [if_neg hr] at h
+  by_cases hr : r = 0x3A
+  · rw [if_pos hr] at h
+    subst hr; lex_one hdec h      -- :
+  rw [if_neg hr] at h
+  by_cases hr : r = 0x3C
+  · rw [if_pos hr] at h
+    -- < <=
+    subst hr
+    split at h
+    · rename_i nr nsz hpk
+      split at h
+      · rename_i hnr; subst hnr; cases h
+        exact good_double hdec hpk _ (by rfl) (fun _ _ => rfl) (by decide)
+      · rename_i hnr; cases h
+        refine good_single hdec _ (by first | rfl | exact Or.inl rfl) (by fb_asc) ?_ (fun h => by cases h)
+        intro b hb; rw [hpk] at hb; cases hb
+        simp [forbiddenNext, hnr]
+    · rename_i hpk; cases h
+      refine good_single hdec _ (by first | rfl | exact Or.inl rfl) (by fb_asc) ?_ (fun h => by cases h)
+      intro b hb; rw [hpk] at hb; cases hb
+  rw [if_neg hr] at h
+  by_cases hr : r = 0x3D
+  · rw [if_pos hr] at h
+    -- = ==
+    subst hr
+    split at h
+    · rename_i nr nsz hpk
+      split at h
+      · rename_i hnr; subst hnr; cases h
+        exact good_double hdec hpk _ (by rfl) (fun _ _ => rfl) (by decide)
+      · rename_i hnr; cases h
+        refine good_single hdec _ (by first | rfl | exact Or.inl rfl) (by fb_asc) ?_ (fun h => by cases h)
+        intro b hb; rw [hpk] at hb; cases hb
+        simp [forbiddenNext, hnr]
+    · rename_i hpk; cases h
+      refine good_single hdec _ (by first | rfl | exact Or.inl rfl) (by fb_asc) ?_ (fun h => by cases h)
+      intro b hb; rw [hpk] at hb; cases hb
+  rw [if_neg hr] at h
+  by_cases hr : r = 0x3E
+  · rw [if_pos hr] at h
+    -- > >=
+    subst hr
+    split at h
+    · rename_i nr nsz hpk
+      split at h
+      · rename_i hnr; subst hnr; cases h
+        exact good_double hdec hpk _ (by rfl) (fun _ _ => rfl) (by decide)
+      · rename_i hnr; cases h
+        refine good_single hdec _ (by first | rfl | exact Or.inl rfl) (by fb_asc) ?_ (fun h => by cases h)
+        intro b hb; rw [hpk] at hb; cases hb
+        simp [forbiddenNext, hnr]
+    · rename_i hpk; cases h
+      refine good_single hdec _ (by first | rfl | exact Or.inl rfl) (by fb_asc) ?_ (fun h => by cases h)
+      intro b hb; rw [hpk] at hb; cases hb
+  rw [if_neg hr] at h
+  by_cases hr : r = 0x40
+  · rw [if_pos hr] at h
+    subst hr; lex_one hdec h      -- @
+  rw [if_neg hr] at h
+  by_cases hr : r = 0x5B
+  · rw [if_pos hr] at h  -- [ [? [] [*]
+    subst hr
+    split at h
+    · rename_i nr nsz hpk
+      split at h
+      · rename_i hnr; subst hnr
+        split at h
+        · rename_i nnr nnsz hpk2
+          split at h
+          · rename_i hnnr; subst hnnr; cases h; exact good_triple hdec hpk hpk2
+          · rename_i hnnr; cases h
+            refine good_single hdec _ (by rfl) (by fb_asc) ?_ ?_
+            · intro b hb; rw [hpk] at hb; cases hb; rfl
+            · intro _ hw
+              have := wild_of hw
+              rw [hpk] at this
+              have e : nsz = 1 := by have := this.1; simp at this; exact this
+              subst e
+              rw [hpk2] at this
+              have := this.2; simp at this; exact hnnr this.1
+        · rename_i hpk2; cases h
+          refine good_single hdec _ (by rfl) (by fb_asc) ?_ ?_
+          · intro b hb; rw [hpk] at hb; cases hb; rfl
+          · intro _ hw
+            have := wild_of hw
+            rw [hpk] at this
+            have e : nsz = 1 := by have := this.1; simp at this; exact this
+            subst e
+            rw [hpk2] at this
+            have := this.2; simp at this
+      · rename_i hnr
+        split at h
+        · rename_i hnr2; subst hnr2; cases h
+          exact good_double hdec hpk _ (by rfl) (fun _ _ => rfl) (by decide)
+        · rename_i hnr2
+          split at h
+          · rename_i hnr3; subst hnr3; cases h
+            exact good_double hdec hpk _ (by rfl) (fun _ _ => rfl) (by decide)
+          · rename_i hnr3; cases h
+            refine good_single hdec _ (by rfl) (by fb_asc) ?_ ?_
+            · intro b hb; rw [hpk] at hb; cases hb; simp [forbiddenNext, hnr2, hnr3]
+            · intro _ hw
+              have := (wild_of hw).1
+              rw [hpk] at this; simp at this; exact hnr this.1
+    · rename_i hpk; cases h
+      refine good_single hdec _ (by rfl) (by fb_asc) ?_ ?_
+      · intro b hb; rw [hpk] at hb; cases hb
+      · intro _ hw
+        have := (wild_of hw).1
+        rw [hpk] at this; cases this
+  rw [if_neg hr] at h
+  by_cases hr : r = 0x5D
+  · rw [if_pos hr] at h
+    subst hr; lex_one hdec h      -- ]
+  rw [if_neg hr] at h
+  by_cases hr : r = 0x60
+  · rw [if_pos hr] at h  -- `
+    subst hr
+    split at h
+    · rename_i m hsc; cases h
+      exact good_delim (by omega) hdec _ hsc (fun v hv => hv) (fun _ _ => rfl) (by decide)
+    · cases h
+  rw [if_neg hr] at h
+  by_cases hr : r = 0x7B
+  · rw [if_pos hr] at h
+    subst hr; lex_one hdec h      -- {
+  rw [if_neg hr] at h
+  by_cases hr : r = 0x7C
+  · rw [if_pos hr] at h
+    -- | ||
+    subst hr
+    split at h
+    · rename_i nr nsz hpk
+      split at h
+      · rename_i hnr; subst hnr; cases h
+        exact good_double hdec hpk _ (by rfl) (fun _ _ => rfl) (by decide)
+      · rename_i hnr; cases h
+        refine good_single hdec _ (by first | rfl | exact Or.inl rfl) (by fb_asc) ?_ (fun h => by cases h)
+        intro b hb; rw [hpk] at hb; cases hb
+        simp [forbiddenNext, hnr]
+    · rename_i hpk; cases h
+      refine good_single hdec _ (by first | rfl | exact Or.inl rfl) (by fb_asc) ?_ (fun h => by cases h)
+      intro b hb; rw [hpk] at hb; cases hb
+  rw [if_neg hr] at h
+  by_cases hr : r = 0x7D
+  · rw [if_pos hr] at h
+    subst hr; lex_one hdec h      -- }
+  rw [if_neg hr] at h
+  by_cases hr : r = 0xD7
+  · rw [if_pos hr] at h
+    subst hr; lex_one hdec h      -- ×
+  rw [if_neg hr] at h
+  by_cases hr : r = 0xF7
+  · rw [if_pos hr] at h
+    subst hr                      -- ÷
+    cases h
+    refine good_single hdec _ (Or.inr (by rfl)) (by fb_asc) ?_ (fun h => by cases h)
+    intro b _; simp [forbiddenNext, encodeRune]
+  rw [if_neg hr] at h
+  by_cases hr : r = 0x2212
+  · rw [if_pos hr] at h
+    subst hr                      -- −
+    cases h
+    refine good_single hdec _ (Or.inr (by rfl)) (by fb_asc) ?_ (fun h => by cases h)
+    intro b _; simp [forbiddenNext, encodeRune, isScalar, MaxRune]
+  rw [if_neg hr] at h
+  by_cases hr : r = 0x21
+  · rw [if_pos hr] at h
+    -- ! !=
+    subst hr
+    split at h
+    · rename_i nr nsz hpk
+      split at h
+      · rename_i hnr; subst hnr; cases h
+        exact good_double hdec hpk _ (by rfl) (fun _ _ => rfl) (by decide)
+      · rename_i hnr; cases h
+        refine good_single hdec _ (by first | rfl | exact Or.inl rfl) (by fb_asc) ?_ (fun h => by cases h)
+        intro b hb; rw [hpk] at hb; cases hb
+        simp [forbiddenNext, hnr]
+    · rename_i hpk; cases h
+      refine good_single hdec _ (by first | rfl | exact Or.inl rfl) (by fb_asc) ?_ (fun h => by cases h)
+      intro b hb; rw [hpk] at hb; cases hb
+  rw [if_neg hr] at h
+  by_cases hr : isDigitR r = true
+  · rw [if_pos hr] at h
+    cases h; exact good_digits hdec hr
+  rw [if_neg hr] at h
+  by_cases hr : isAlphaR r = true
+  · rw [if_pos hr] at h
+    cases h; exact good_ident hdec hr
+  rw [if_neg hr] at h
+  · cases h
+
+
+/-! ### the whole token stream: soundness -/
+
+theorem lexAllAux_sound : ∀ (fuel : Nat) (s : Bytes) (ts : List Token), lexAllAux fuel s = (ts, none) → Lexes s ts
+  | 0, s, ts => by intro h; simp [lexAllAux] at h
+  | fuel + 1, s, ts => by
+    intro h
+    obtain ⟨w, hw, hs⟩ := skipWsLex_spec s.length s
+    unfold lexAllAux at h
+    split at h
+    · rename_i heq
+      cases h
+      rw [heq, List.append_nil] at hs
+      subst hs
+      exact Lexes.done _ hw
+    · rename_i s' hne
+      split at h
+      · cases h
+      · rename_i t n htok
+        generalize hrec : lexAllAux fuel (List.drop (max n 1) (skipWsLex s.length s)) = p at h
+        obtain ⟨ts', e'⟩ := p
+        simp only [Prod.mk.injEq] at h
+        obtain ⟨h1, h2⟩ := h
+        subst h1 h2
+        have g := lexToken_good htok
+        have hmax : max n 1 = n := by have := g.pos; omega
+        rw [hmax] at hrec
+        have ih := lexAllAux_sound fuel _ _ hrec
+        have : s = w ++ t.value ++ List.drop n (skipWsLex s.length s) := by
+          rw [g.val, List.append_assoc, List.take_append_drop]; exact hs
+        rw [this]
+        exact Lexes.tok w t _ _ hw g.shape ih
+
+theorem lexAll_sound {s : Bytes} {ts : List Token} (h : lexAll s = (ts, none)) : Lexes s ts :=
+  lexAllAux_sound _ _ _ h
+
+theorem Lexes.ends {s : Bytes} {ts : List Token} (h : Lexes s ts) : ∃ pre, ts = pre ++ [⟨.end, []⟩] ∧ ∀ t ∈ pre, TokShape t.type t.value := by
+  induction h with
+  | done w _ => exact ⟨[], rfl, by intro t ht; cases ht⟩
+  | tok w t rest ts _ hsh _ ih =>
+    obtain ⟨pre, h1, h2⟩ := ih
+    refine ⟨t :: pre, by rw [h1]; rfl, ?_⟩
+    intro x hx; simp at hx; rcases hx with rfl | hx
+    · exact hsh
+    · exact h2 x hx
+
+theorem Lexes.render {s : Bytes} {ts : List Token} (h : Lexes s ts) :
+    ∃ ws : List Bytes, ws.length = ts.length ∧ (∀ w ∈ ws, Ws w) ∧ s = render ws (ts.map (·.value)) := by
+  induction h with
+  | done w hw => exact ⟨[w], rfl, by intro x hx; simp at hx; subst hx; exact hw, by simp [Lexical.render]⟩
+  | tok w t rest ts hw _ _ ih =>
+    obtain ⟨ws, h1, h2, h3⟩ := ih
+    refine ⟨w :: ws, by simp [h1], ?_, by simp [Lexical.render, h3]⟩
+    intro x hx; simp at hx; rcases hx with rfl | hx
+    · exact hw
+    · exact h2 x hx
+
+set_option linter.unusedSimpArgs false
+
+/-! ### completeness of one lexer step -/
+
+theorem lexToken_alpha {s : Bytes} {r sz : Nat} (hdec : lexDecode s = .ok (r, sz)) (hr : isAlphaR r = true) :
+    lexToken s =
+      .ok (⟨if s.take (sz + spanRunes (fun r => isAlphaR r || isDigitR r) s.length (s.drop sz)) = [0x69, 0x6E]
+              then TokenType.in
+            else if s.take (sz + spanRunes (fun r => isAlphaR r || isDigitR r) s.length (s.drop sz)) = [0x6C, 0x65, 0x74]
+              then TokenType.let else TokenType.unquotedIdentifier,
+            s.take (sz + spanRunes (fun r => isAlphaR r || isDigitR r) s.length (s.drop sz))⟩,
+           sz + spanRunes (fun r => isAlphaR r || isDigitR r) s.length (s.drop sz)) := by
+  have hr' : ((0x41 ≤ r ∧ r ≤ 0x5A) ∨ (0x61 ≤ r ∧ r ≤ 0x7A)) ∨ r = 0x5F := by simpa [isAlphaR] using hr
+  have hd : ¬ isDigitR r = true := by simp [isDigitR]; omega
+  unfold lexToken
+  rw [hdec]
+  simp only []
+  rw [if_neg (show ¬ r = 0x22 by omega)]
+  rw [if_neg (show ¬ r = 0x24 by omega)]
+  rw [if_neg (show ¬ r = 0x25 by omega)]
+  rw [if_neg (show ¬ r = 0x26 by omega)]
+  rw [if_neg (show ¬ r = 0x27 by omega)]
+  rw [if_neg (show ¬ r = 0x28 by omega)]
+  rw [if_neg (show ¬ r = 0x29 by omega)]
+  rw [if_neg (show ¬ r = 0x2A by omega)]
+  rw [if_neg (show ¬ r = 0x2B by omega)]
+  rw [if_neg (show ¬ r = 0x2C by omega)]
+  rw [if_neg (show ¬ r = 0x2D by omega)]
+  rw [if_neg (show ¬ r = 0x2E by omega)]
+  rw [if_neg (show ¬ r = 0x2F by omega)]
+  rw [if_neg (show ¬ r = 0x3A by omega)]
+  rw [if_neg (show ¬ r = 0x3C by omega)]
+  rw [if_neg (show ¬ r = 0x3D by omega)]
+  rw [if_neg (show ¬ r = 0x3E by omega)]
+  rw [if_neg (show ¬ r = 0x40 by omega)]
+  rw [if_neg (show ¬ r = 0x5B by omega)]
+  rw [if_neg (show ¬ r = 0x5D by omega)]
+  rw [if_neg (show ¬ r = 0x60 by omega)]
+  rw [if_neg (show ¬ r = 0x7B by omega)]
+  rw [if_neg (show ¬ r = 0x7C by omega)]
+  rw [if_neg (show ¬ r = 0x7D by omega)]
+  rw [if_neg (show ¬ r = 0xD7 by omega)]
+  rw [if_neg (show ¬ r = 0xF7 by omega)]
+  rw [if_neg (show ¬ r = 0x2212 by omega)]
+  rw [if_neg (show ¬ r = 0x21 by omega)]
+  rw [if_neg hd, if_pos hr]
+
+theorem lexToken_digit {s : Bytes} {r sz : Nat} (hdec : lexDecode s = .ok (r, sz)) (hr : isDigitR r = true) :
+    lexToken s = .ok (⟨.integerLiteral, s.take (sz + spanRunes isDigitR s.length (s.drop sz))⟩,
+      sz + spanRunes isDigitR s.length (s.drop sz)) := by
+  have hr' : 0x30 ≤ r ∧ r ≤ 0x39 := by simpa [isDigitR] using hr
+  unfold lexToken
+  rw [hdec]
+  simp only []
+  rw [if_neg (show ¬ r = 0x22 by omega)]
+  rw [if_neg (show ¬ r = 0x24 by omega)]
+  rw [if_neg (show ¬ r = 0x25 by omega)]
+  rw [if_neg (show ¬ r = 0x26 by omega)]
+  rw [if_neg (show ¬ r = 0x27 by omega)]
+  rw [if_neg (show ¬ r = 0x28 by omega)]
+  rw [if_neg (show ¬ r = 0x29 by omega)]
+  rw [if_neg (show ¬ r = 0x2A by omega)]
+  rw [if_neg (show ¬ r = 0x2B by omega)]
+  rw [if_neg (show ¬ r = 0x2C by omega)]
+  rw [if_neg (show ¬ r = 0x2D by omega)]
+  rw [if_neg (show ¬ r = 0x2E by omega)]
+  rw [if_neg (show ¬ r = 0x2F by omega)]
+  rw [if_neg (show ¬ r = 0x3A by omega)]
+  rw [if_neg (show ¬ r = 0x3C by omega)]
+  rw [if_neg (show ¬ r = 0x3D by omega)]
+  rw [if_neg (show ¬ r = 0x3E by omega)]
+  rw [if_neg (show ¬ r = 0x40 by omega)]
+  rw [if_neg (show ¬ r = 0x5B by omega)]
+  rw [if_neg (show ¬ r = 0x5D by omega)]
+  rw [if_neg (show ¬ r = 0x60 by omega)]
+  rw [if_neg (show ¬ r = 0x7B by omega)]
+  rw [if_neg (show ¬ r = 0x7C by omega)]
+  rw [if_neg (show ¬ r = 0x7D by omega)]
+  rw [if_neg (show ¬ r = 0xD7 by omega)]
+  rw [if_neg (show ¬ r = 0xF7 by omega)]
+  rw [if_neg (show ¬ r = 0x2212 by omega)]
+  rw [if_neg (show ¬ r = 0x21 by omega)]
+  rw [if_pos hr]
+
+theorem lexToken_ws {s : Bytes} {r sz : Nat} (hdec : lexDecode s = .ok (r, sz)) (hr : isWsR r = true) :
+    lexToken s = .error (.unexpectedRune r) := by
+  have hr' : ((r = 0x09 ∨ r = 0x0A) ∨ r = 0x0D) ∨ r = 0x20 := by simpa [isWsR] using hr
+  have hd : ¬ isDigitR r = true := by simp [isDigitR]; omega
+  have ha : ¬ isAlphaR r = true := by simp [isAlphaR]; omega
+  unfold lexToken
+  rw [hdec]
+  simp only []
+  rw [if_neg (show ¬ r = 0x22 by omega)]
+  rw [if_neg (show ¬ r = 0x24 by omega)]
+  rw [if_neg (show ¬ r = 0x25 by omega)]
+  rw [if_neg (show ¬ r = 0x26 by omega)]
+  rw [if_neg (show ¬ r = 0x27 by omega)]
+  rw [if_neg (show ¬ r = 0x28 by omega)]
+  rw [if_neg (show ¬ r = 0x29 by omega)]
+  rw [if_neg (show ¬ r = 0x2A by omega)]
+  rw [if_neg (show ¬ r = 0x2B by omega)]
+  rw [if_neg (show ¬ r = 0x2C by omega)]
+  rw [if_neg (show ¬ r = 0x2D by omega)]
+  rw [if_neg (show ¬ r = 0x2E by omega)]
+  rw [if_neg (show ¬ r = 0x2F by omega)]
+  rw [if_neg (show ¬ r = 0x3A by omega)]
+  rw [if_neg (show ¬ r = 0x3C by omega)]
+  rw [if_neg (show ¬ r = 0x3D by omega)]
+  rw [if_neg (show ¬ r = 0x3E by omega)]
+  rw [if_neg (show ¬ r = 0x40 by omega)]
+  rw [if_neg (show ¬ r = 0x5B by omega)]
+  rw [if_neg (show ¬ r = 0x5D by omega)]
+  rw [if_neg (show ¬ r = 0x60 by omega)]
+  rw [if_neg (show ¬ r = 0x7B by omega)]
+  rw [if_neg (show ¬ r = 0x7C by omega)]
+  rw [if_neg (show ¬ r = 0x7D by omega)]
+  rw [if_neg (show ¬ r = 0xD7 by omega)]
+  rw [if_neg (show ¬ r = 0xF7 by omega)]
+  rw [if_neg (show ¬ r = 0x2212 by omega)]
+  rw [if_neg (show ¬ r = 0x21 by omega)]
+  rw [if_neg hd, if_neg ha]
+
+
+/-- what follows a token in the canonical rendering: nothing, or a blank -/
+def Sep (rest : Bytes) : Prop := rest = [] ∨ ∃ r, rest = 0x20 :: r
+
+theorem lexDecode_nil : lexDecode [] = .error .unexpectedEnd := by simp [lexDecode, decodeRune]
+
+theorem spanRunes_complete (p : Nat → Bool) (hp : ∀ r, p r = true → r < 0x80) (rest : Bytes)
+    (hrest : rest = [] ∨ ∃ b r, rest = b :: r ∧ b < 0x80 ∧ p b = false) :
+    ∀ (t : Bytes) (fuel : Nat), t.length ≤ fuel → (∀ b ∈ t, p b = true) → spanRunes p fuel (t ++ rest) = t.length
+  | [], fuel, _, _ => by
+    cases fuel with
+    | zero => rfl
+    | succ f =>
+      rcases hrest with rfl | ⟨b, r, rfl, hb, hpb⟩
+      · simp [spanRunes, lexDecode_nil]
+      · simp [spanRunes, lexDecode_cons_ascii hb, hpb]
+  | c :: t, fuel, hf, hall => by
+    match fuel, hf with
+    | f + 1, hf =>
+      have hc := hall c (by simp)
+      have ih := spanRunes_complete p hp rest hrest t f (by simpa using hf) (fun b hb => hall b (by simp [hb]))
+      simp only [List.cons_append, spanRunes, lexDecode_cons_ascii (hp c hc), hc, if_true, List.drop_succ_cons,
+        List.drop_zero, ih, List.length_cons]
+      omega
+
+theorem sep_span (p : Nat → Bool) (h20 : p 0x20 = false) {rest : Bytes} (hs : Sep rest) :
+    rest = [] ∨ ∃ b r, rest = b :: r ∧ b < 0x80 ∧ p b = false := by
+  rcases hs with rfl | ⟨r, rfl⟩
+  · exact Or.inl rfl
+  · exact Or.inr ⟨0x20, r, rfl, by omega, h20⟩
+
+theorem scanDelim_complete {d : Nat} (hd : d < 0x80) (hd2 : d ≠ 0x5C) {w : Bytes} (hw : DelimBody d w) :
+    ∀ (fuel n : Nat) (rest : Bytes), w.length ≤ fuel → scanDelim d fuel (w ++ rest) n = .ok (n + w.length) := by
+  induction hw with
+  | close =>
+    intro fuel n rest hf
+    simp only [List.length_cons, List.length_nil] at hf
+    cases fuel with
+    | zero => omega
+    | succ f => simp [scanDelim, lexDecode_cons_ascii hd]
+  | esc c w h1 _ ih =>
+    intro fuel n rest hf
+    have hp := encodeRune_length_pos c
+    simp only [List.length_cons, List.length_append] at hf
+    match fuel, hf with
+    | f + 1, hf =>
+      have e1 : lexDecode (0x5C :: (encodeRune c ++ w) ++ rest) = .ok (0x5C, 1) := lexDecode_cons_ascii (by omega)
+      have hd3 : ¬ (0x5C = d) := fun h => hd2 h.symm
+      have e2 : List.drop 1 (0x5C :: (encodeRune c ++ w) ++ rest) = encodeRune c ++ (w ++ rest) := by simp
+      have e3 : List.drop (1 + (encodeRune c).length) (0x5C :: (encodeRune c ++ w) ++ rest) = w ++ rest := by
+        rw [← List.drop_drop, e2, List.drop_left]
+      simp only [scanDelim, e1, hd3, if_false, if_true, e2, lexDecode_enc c h1, e3]
+      rw [ih f _ rest (by omega)]
+      simp only [List.length_append, List.length_cons]; congr 1; omega
+  | plain c w h1 h2 h3 _ ih =>
+    intro fuel n rest hf
+    have hp := encodeRune_length_pos c
+    simp only [List.length_append] at hf
+    cases fuel with
+    | zero => omega
+    | succ f =>
+      rw [List.append_assoc]
+      simp only [scanDelim, lexDecode_enc c h1, h2, h3, if_false, List.drop_left]
+      rw [ih f _ rest (by omega)]
+      simp only [List.length_append]; congr 1; omega
+
+theorem DelimBody.length_pos {d : Nat} {w : Bytes} (h : DelimBody d w) : 0 < w.length := by
+  cases h with
+  | close => simp
+  | esc => simp
+  | plain c w => have := encodeRune_length_pos c; simp; omega
+
+theorem peek_sep {pre rest : Bytes} (hs : Sep rest) :
+    peek (pre ++ rest) pre.length = none ∨ peek (pre ++ rest) pre.length = some (0x20, 1) := by
+  unfold peek
+  rw [List.drop_left]
+  rcases hs with rfl | ⟨r, rfl⟩
+  · left; rw [lexDecode_nil]
+  · right; rw [lexDecode_cons_ascii (by omega)]
+
+
+theorem lexDecode_minus (rest : Bytes) : lexDecode (0xE2 :: 0x88 :: 0x92 :: rest) = .ok (0x2212, 3) :=
+  lexDecode_enc 0x2212 (by decide) rest
+theorem lexDecode_times (rest : Bytes) : lexDecode (0xC3 :: 0x97 :: rest) = .ok (0xD7, 2) :=
+  lexDecode_enc 0xD7 (by decide) rest
+theorem lexDecode_div (rest : Bytes) : lexDecode (0xC3 :: 0xB7 :: rest) = .ok (0xF7, 2) :=
+  lexDecode_enc 0xF7 (by decide) rest
+
+
+theorem take_len_append (v rest : Bytes) : (v ++ rest).take v.length = v := by simp
+
+theorem complete_ident {v : Bytes} (h : Ident v) {rest : Bytes} (hs : Sep rest) :
+    lexToken (v ++ rest) = .ok (⟨if v = [0x69, 0x6E] then TokenType.in
+            else if v = [0x6C, 0x65, 0x74] then TokenType.let else TokenType.unquotedIdentifier, v⟩, v.length) := by
+  obtain ⟨c, t, rfl, hc, ht⟩ := h
+  have hdec : lexDecode (c :: t ++ rest) = .ok (c, 1) := lexDecode_cons_ascii (isIdStartB_lt hc)
+  have hsp : spanRunes (fun r => isAlphaR r || isDigitR r) (c :: t ++ rest).length ((c :: t ++ rest).drop 1) = t.length :=
+    spanRunes_complete _ (fun r h => isIdCharB_lt h) rest (sep_span _ (by decide) hs) t _ (by simp; omega) ht
+  rw [lexToken_alpha hdec hc, hsp]
+  have e : (c :: t ++ rest).take (1 + t.length) = c :: t := by
+    rw [Nat.add_comm]; exact take_len_append (c :: t) rest
+  rw [e]
+  simp only [List.length_cons]
+  rw [Nat.add_comm]
+
+theorem complete_digits {v : Bytes} (h : Digits v) {rest : Bytes} (hs : Sep rest) :
+    lexToken (v ++ rest) = .ok (⟨.integerLiteral, v⟩, v.length) := by
+  obtain ⟨hne, hall⟩ := h
+  match v, hne with
+  | c :: t, _ =>
+    have hc : isDigitB c = true := hall c (by simp)
+    have hdec : lexDecode (c :: t ++ rest) = .ok (c, 1) := lexDecode_cons_ascii (isDigitB_lt hc)
+    have hsp : spanRunes isDigitR (c :: t ++ rest).length ((c :: t ++ rest).drop 1) = t.length :=
+      spanRunes_complete _ (fun r h => isDigitB_lt h) rest (sep_span _ (by decide) hs) t _ (by simp; omega)
+        (fun b hb => hall b (by simp [hb]))
+    rw [lexToken_digit hdec hc, hsp]
+    have e : (c :: t ++ rest).take (1 + t.length) = c :: t := by
+      rw [Nat.add_comm]; exact take_len_append (c :: t) rest
+    rw [e]
+    simp only [List.length_cons]
+    rw [Nat.add_comm]
+
+theorem complete_negdigits {d : Bytes} (h : Digits d) {rest : Bytes} (hs : Sep rest) :
+    lexToken (0x2D :: d ++ rest) = .ok (⟨.integerLiteral, 0x2D :: d⟩, (0x2D :: d).length) := by
+  obtain ⟨hne, hall⟩ := h
+  match d, hne with
+  | c :: t, _ =>
+    have hc : isDigitB c = true := hall c (by simp)
+    have hc' : isDigitR c = true := hc
+    have hpk : lexDecode (c :: (t ++ rest)) = .ok (c, 1) := lexDecode_cons_ascii (isDigitB_lt hc)
+    have hsp : spanRunes isDigitR (0x2D :: c :: t ++ rest).length (t ++ rest) = t.length :=
+      spanRunes_complete _ (fun r h => isDigitB_lt h) rest (sep_span _ (by decide) hs) t _ (by simp; omega)
+        (fun b hb => hall b (by simp [hb]))
+    have e : (0x2D :: c :: t ++ rest).take (1 + 1 + t.length) = 0x2D :: c :: t := by
+      rw [show 1 + 1 + t.length = (0x2D :: c :: t).length by simp; omega]; exact take_len_append _ rest
+    simp only [lexToken, lexDecode_cons_ascii (show 0x2D < 0x80 by omega), List.cons_append, peek,
+      List.drop_succ_cons, List.drop_zero, hpk, hc', if_true]
+    simp only [List.cons_append] at hsp e
+    rw [hsp, e]
+    simp only [List.length_cons, Nat.reduceEqDiff, ↓reduceIte]
+    congr 2; omega
+
+theorem complete_variable {w : Bytes} (h : Ident w) {rest : Bytes} (hs : Sep rest) :
+    lexToken (0x24 :: w ++ rest) = .ok (⟨.variable, 0x24 :: w⟩, (0x24 :: w).length) := by
+  obtain ⟨c, t, rfl, hc, ht⟩ := h
+  have hc' : isAlphaR c = true := hc
+  have hpk : lexDecode (c :: (t ++ rest)) = .ok (c, 1) := lexDecode_cons_ascii (isIdStartB_lt hc)
+  have hsp : spanRunes (fun r => isAlphaR r || isDigitR r) (0x24 :: c :: t ++ rest).length (t ++ rest) = t.length :=
+    spanRunes_complete _ (fun r h => isIdCharB_lt h) rest (sep_span _ (by decide) hs) t _ (by simp; omega) ht
+  have e : (0x24 :: c :: t ++ rest).take (1 + 1 + t.length) = 0x24 :: c :: t := by
+    rw [show 1 + 1 + t.length = (0x24 :: c :: t).length by simp; omega]; exact take_len_append _ rest
+  simp only [lexToken, lexDecode_cons_ascii (show 0x24 < 0x80 by omega), List.cons_append, peek,
+    List.drop_succ_cons, List.drop_zero, hpk, hc', if_true]
+  simp only [List.cons_append] at hsp e
+  rw [hsp, e]
+  simp only [List.length_cons, Nat.reduceEqDiff, ↓reduceIte]
+  congr 2; omega
+
+theorem complete_quoted {v : Bytes} (h : Delimited 0x22 v) (rest : Bytes) :
+    lexToken (v ++ rest) = .ok (⟨.quotedIdentifier, v⟩, v.length) := by
+  obtain ⟨w, rfl, hw⟩ := h
+  have hsc := scanDelim_complete (d := 0x22) (by omega) (by omega) hw ((0x22 :: w ++ rest).length + 1) 1 rest
+    (by simp; omega)
+  simp only [lexToken, List.cons_append, lexDecode_cons_ascii (show 0x22 < 0x80 by omega), List.drop_succ_cons,
+    List.drop_zero]
+  simp only [List.cons_append] at hsc
+  rw [hsc]
+  dsimp only
+  rw [Nat.add_comm 1 w.length, List.take_succ_cons, take_len_append]
+  rfl
+
+theorem complete_raw {v : Bytes} (h : Delimited 0x27 v) (rest : Bytes) :
+    lexToken (v ++ rest) = .ok (⟨.stringLiteral, v⟩, v.length) := by
+  obtain ⟨w, rfl, hw⟩ := h
+  have hsc := scanDelim_complete (d := 0x27) (by omega) (by omega) hw ((0x27 :: w ++ rest).length + 1) 1 rest
+    (by simp; omega)
+  simp only [lexToken, List.cons_append, lexDecode_cons_ascii (show 0x27 < 0x80 by omega), List.drop_succ_cons,
+    List.drop_zero, Nat.reduceEqDiff, ↓reduceIte]
+  simp only [List.cons_append] at hsc
+  rw [hsc]
+  dsimp only
+  rw [Nat.add_comm 1 w.length, List.take_succ_cons, take_len_append]
+  rfl
+
+theorem complete_json {v : Bytes} (h : Delimited 0x60 v) (rest : Bytes) :
+    lexToken (v ++ rest) = .ok (⟨.jsonLiteral, v⟩, v.length) := by
+  obtain ⟨w, rfl, hw⟩ := h
+  have hsc := scanDelim_complete (d := 0x60) (by omega) (by omega) hw ((0x60 :: w ++ rest).length + 1) 1 rest
+    (by simp; omega)
+  simp only [lexToken, List.cons_append, lexDecode_cons_ascii (show 0x60 < 0x80 by omega), List.drop_succ_cons,
+    List.drop_zero, Nat.reduceEqDiff, ↓reduceIte]
+  simp only [List.cons_append] at hsc
+  rw [hsc]
+  dsimp only
+  rw [Nat.add_comm 1 w.length, List.take_succ_cons, take_len_append]
+  rfl
+
+
+macro "lex_fixed" : tactic => `(tactic|
+  simp [lexToken, peek, lexDecode_nil, lexDecode_cons_ascii, lexDecode_minus, lexDecode_times, lexDecode_div,
+      isAlphaR, isDigitR])
+
+/-- **Completeness of one lexer step**: a byte string of the shape of a token of type `ty`, followed by nothing or
+    by a blank, is lexed as exactly that token. -/
+theorem lexToken_complete {ty : TokenType} {v : Bytes} (h : TokShape ty v) {rest : Bytes} (hs : Sep rest) :
+    lexToken (v ++ rest) = .ok (⟨ty, v⟩, v.length) := by
+  cases ty <;> simp only [TokShape] at h
+  case unquotedIdentifier =>
+    obtain ⟨h1, h2, h3⟩ := h
+    simp only [kwLet, kwIn] at h2 h3
+    rw [complete_ident h1 hs, if_neg h3, if_neg h2]
+  case «let» => subst h; exact complete_ident ⟨_, _, rfl, by decide, by decide⟩ hs
+  case «in» => subst h; exact complete_ident ⟨_, _, rfl, by decide, by decide⟩ hs
+  case integerLiteral =>
+    rcases h with h | ⟨d, rfl, h⟩
+    · exact complete_digits h hs
+    · exact complete_negdigits h hs
+  case «variable» => obtain ⟨w, rfl, hw⟩ := h; exact complete_variable hw hs
+  case quotedIdentifier => exact complete_quoted h rest
+  case stringLiteral => exact complete_raw h rest
+  case jsonLiteral => exact complete_json h rest
+  case subtract => rcases h with rfl | rfl <;> rcases hs with rfl | ⟨r, rfl⟩ <;> lex_fixed
+  case divide => rcases h with rfl | rfl <;> rcases hs with rfl | ⟨r, rfl⟩ <;> lex_fixed
+  all_goals (subst h; rcases hs with rfl | ⟨r, rfl⟩ <;> lex_fixed)
+
+theorem tokShape_ne_nil {ty : TokenType} {v : Bytes} (h : TokShape ty v) : v ≠ [] := by
+  intro hv; subst hv
+  cases ty <;> simp [TokShape, Ident, Digits, Delimited, kwLet, kwIn] at h
+
+/-- a string on which the lexer step succeeds does not start with whitespace -/
+theorem skipWsLex_of_ok {s : Bytes} {x : Token × Nat} (h : lexToken s = .ok x) : ∀ fuel, skipWsLex fuel s = s
+  | 0 => rfl
+  | fuel + 1 => by
+    unfold skipWsLex
+    split
+    · rfl
+    · split
+      · rename_i r sz hd
+        split
+        · rename_i hw
+          rw [lexToken_ws hd hw] at h; cases h
+        · rfl
+      · rfl
+
+theorem lexAllAux_nil (fuel : Nat) : lexAllAux (fuel + 1) [] = ([⟨.end, []⟩], none) := by
+  simp [lexAllAux, skipWsLex]
+
+theorem lexAllAux_blank (fuel : Nat) (r : Bytes) : lexAllAux (fuel + 1) (0x20 :: r) = lexAllAux (fuel + 1) r := by
+  have e : skipWsLex (0x20 :: r).length (0x20 :: r) = skipWsLex r.length r := by
+    simp [skipWsLex, lexDecode_cons_ascii, isWsR]
+  unfold lexAllAux
+  rw [e]
+
+theorem lexAllAux_tok {t : Token} (h : TokShape t.type t.value) {rest : Bytes} (hs : Sep rest) (fuel : Nat) :
+    lexAllAux (fuel + 1) (t.value ++ rest) = (t :: (lexAllAux fuel rest).1, (lexAllAux fuel rest).2) := by
+  have hl := lexToken_complete h hs
+  have hne := tokShape_ne_nil h
+  have hpos : 0 < t.value.length := List.length_pos_iff.2 hne
+  rw [lexAllAux]
+  rw [skipWsLex_of_ok hl]
+  split
+  · rename_i heq; simp at heq; exact absurd heq.1 hne
+  · rw [hl]
+    simp only []
+    rw [show max t.value.length 1 = t.value.length by omega, List.drop_left]
+
+/-- **Item 5**: the canonical rendering of a token list (single blanks between the values) lexes back to that list -/
+theorem lexAllAux_spaced : ∀ (ts : List Token), (∀ t ∈ ts, TokShape t.type t.value) → ∀ fuel,
+    (spaced (ts.map (·.value))).length + 1 ≤ fuel →
+    lexAllAux fuel (spaced (ts.map (·.value))) = (ts ++ [⟨.end, []⟩], none)
+  | [], _, fuel, hf => by
+    match fuel, hf with
+    | f + 1, _ => exact lexAllAux_nil f
+  | [t], h, fuel, hf => by
+    have ht := h t (by simp)
+    have hpos : 0 < t.value.length := List.length_pos_iff.2 (tokShape_ne_nil ht)
+    simp only [List.map_cons, List.map_nil, spaced] at hf ⊢
+    obtain ⟨f, rfl⟩ : ∃ f, fuel = f + 2 := ⟨fuel - 2, by omega⟩
+    have := lexAllAux_tok ht (Or.inl rfl) (f + 1)
+    rw [List.append_nil] at this
+    rw [this, lexAllAux_nil]; rfl
+  | t :: t' :: ts, h, fuel, hf => by
+    have ht := h t (by simp)
+    have hpos : 0 < t.value.length := List.length_pos_iff.2 (tokShape_ne_nil ht)
+    have e : spaced ((t :: t' :: ts).map (·.value)) = t.value ++ 0x20 :: spaced ((t' :: ts).map (·.value)) := rfl
+    rw [e] at hf ⊢
+    simp only [List.length_append, List.length_cons] at hf
+    obtain ⟨f, rfl⟩ : ∃ f, fuel = f + 2 := ⟨fuel - 2, by omega⟩
+    rw [lexAllAux_tok ht (Or.inr ⟨_, rfl⟩) (f + 1), lexAllAux_blank,
+      lexAllAux_spaced (t' :: ts) (fun x hx => h x (by simp [hx])) (f + 1) (by omega)]
+    rfl
+
+theorem lexAll_spaced (ts : List Token) (h : ∀ t ∈ ts, TokShape t.type t.value) :
+    lexAll (spaced (ts.map (·.value))) = (ts ++ [⟨.end, []⟩], none) :=
+  lexAllAux_spaced ts h _ (Nat.le_refl _)
+
 
 end Jmes.Lex
